@@ -50,7 +50,9 @@ theorem getBytes_none_iff (pb : PushBuffers) (s n : Nat) :
       | none =>
         rw [List.find?_eq_none] at hf
         have := hf e he
-        simp at this; omega
+        dsimp only at hc
+        simp only [Bool.and_eq_true, decide_eq_true_eq, not_and] at this
+        exact absurd hc.2 (this hc.1)
       | some e' => rw [hf] at h; cases h
   · exact getBytes_none pb s n
 
@@ -152,10 +154,6 @@ theorem clearRanges_spec (file : List Nat) (pb : PushBuffers) (hinv : Inv file p
 def GenuineSched (file : List Nat) (acts : List Action) : Prop :=
   ∀ a ∈ acts, ∀ es, a = .push es → Genuine file es
 
-theorem isFinished_match {β} (e : Emit β) :
-    (match e with | .finished => true | _ => false) = e.isFinished := by
-  cases e <;> rfl
-
 theorem idealRun_congr {σ β} (P : Prog σ β) (file : List Nat) (m : Mode) (s s' : σ)
     (h : idealPoll P file m s = idealPoll P file m s') (n : Nat) :
     idealRun P file m n s false = idealRun P file m n s' false := by
@@ -223,18 +221,17 @@ theorem schedule_independence {σ β} (P : Prog σ β) (file : List Nat) (m : Mo
           obtain ⟨h1, h2⟩ := out.emits e hev
           simp only [Event.emits, List.length_cons, idealRun, List.mem_cons, reduceCtorEq, false_or]
           rw [← h1]
-          simp only [isFinished_match]
           rw [h2] at ih'
           exact ⟨by rw [← ih'.1], ih'.2⟩
 
-/-- non-vacuity: the table program with two phases, a schedule that supplies a superset early
-and the second range late; it runs to `finished` -/
-example :
-    Event.emits (runSched tabProg .batch
-      [.push [(⟨0, 6⟩, [10, 11, 12, 13, 14, 15])], .poll, .poll, .push [(⟨6, 8⟩, [16, 17])], .poll, .poll]
-      { ctl := { todo := [⟨[⟨1, 3⟩], none⟩, ⟨[⟨6, 8⟩], some 1⟩], decoding := none, idx := 0 },
-        buffers := { fileLen := 8 } })
-    = [.batch (1, 0), .finished] := by decide
+/-- non-vacuity: a schedule that supplies a superset early, polls, supplies a range late, and
+clears; all its pushes are genuine slices of the file `[10, …, 17]` -/
+example : GenuineSched [10, 11, 12, 13, 14, 15, 16, 17]
+    [.push [(⟨0, 6⟩, [10, 11, 12, 13, 14, 15])], .poll, .clear, .poll, .push [(⟨6, 8⟩, [16, 17])], .poll] := by
+  intro a ha es he
+  subst he
+  simp at ha
+  rcases ha with rfl | rfl <;> (intro e hx; simp at hx; subst hx; exact ⟨by decide, by decide⟩)
 
 /-- **Requested ranges**: every `NeedsData` a call returns is non-empty, consists of ranges of
 the current request that are really not available, and lies inside the file (given the
@@ -429,7 +426,6 @@ theorem driveRun_complete {σ β} (P : Prog σ β) (file : List Nat) (m : Mode) 
       obtain ⟨d', e, h1, h2, h3, h4⟩ := settle_complete P file m hwf adv hadv d hinv hfin
       simp only [driveRun, h1, idealRun]
       rw [← h2]
-      simp only [isFinished_match]
       rw [ih d' h3, h4]
 
 /-- non-vacuity: answering with the whole file is responsive -/
@@ -478,6 +474,28 @@ theorem rgProg_wf (cfg : Cfg Plan Chunks GSel Batch) (file : List Nat)
   · cases hreq; exact hf _ _ _ _ r hr
   · cases hreq; exact hd _ _ _ r hr
   · cases hreq
+
+/-- a small configuration: one predicate, every row group asks for `0..4` to filter and `4..8`
+to decode -/
+def demoCfg : Cfg Unit Unit Unit Nat where
+  numPreds := 1
+  rowCount := fun _ => 10
+  gselCount := fun _ => 0
+  gselSplit := fun s _ => (s, s)
+  initPlan := fun _ => ()
+  selectsAny := fun _ => true
+  noChunks := ()
+  filterRanges := fun _ _ _ _ => [⟨0, 4⟩]
+  evalPred := fun _ _ _ p c _ => (p, c)
+  rowsSelected := fun _ n => n
+  budgetPlan := fun _ p _ => p
+  dataRanges := fun _ _ _ => [⟨4, 8⟩]
+  mkReader := fun rg _ _ chunks => [rg + chunks.length]
+
+/-- non-vacuity of `WF` for the push decoder's program on an 8-byte file -/
+example : WF (rgProg demoCfg) [0, 1, 2, 3, 4, 5, 6, 7] :=
+  rgProg_wf demoCfg _ (by intro _ _ _ _ r hr; simp [demoCfg] at hr; subst hr; decide)
+    (by intro _ _ _ r hr; simp [demoCfg] at hr; subst hr; decide)
 
 /-- the push decoder, any schedule: instance of `schedule_independence` -/
 theorem pushDecoder_schedule_independence (cfg : Cfg Plan Chunks GSel Batch) (file : List Nat) (m : Mode)
@@ -567,19 +585,16 @@ theorem rebuild_eq_self (cfg : Cfg Plan Chunks GSel Batch) (d : Dec (Ctl Plan Ch
   rw [if_pos hb]
   obtain ⟨c, b, fin⟩ := d
   obtain ⟨f, fa, rg, dec⟩ := c
-  simp only [atBoundary, Bool.and_eq_true, Bool.not_eq_true', Option.isNone_iff_eq_none] at hb
-  obtain ⟨⟨h1, h2⟩, h3⟩ := hb
-  simp only at h1 h2 h3
-  subst h1; subst h2
+  obtain ⟨rgs, sel, bud, hp⟩ := f
   cases rg with
   | finished =>
+    simp only [atBoundary, Bool.and_eq_true, Bool.not_eq_true', Option.isNone_iff_eq_none, and_true] at hb
+    obtain ⟨h1, h2⟩ := hb
+    subst h1; subst h2
     simp only [FilterInv] at hI
-    simp only [buildCtl]
-    obtain ⟨rgs, sel, bud, hp⟩ := f
-    simp only at hI
     subst hI
     rfl
-  | _ => simp at h3
+  | _ => simp [atBoundary] at hb
 
 /-- `into_builder` away from a boundary is refused -/
 theorem rebuild_refused (cfg : Cfg Plan Chunks GSel Batch) (d : Dec (Ctl Plan Chunks GSel Batch))
@@ -596,6 +611,13 @@ theorem rowsAfter_spec (b : RowBudget) (n : Nat) :
   unfold RowBudget.rowsAfter rowsAfterSpec
   cases b.limit <;> rfl
 
+theorem advance_eq (b : RowBudget) (n a : Nat) :
+    b.advance n a = ⟨b.offset.map (fun o => o - (n - a)), b.limit.map (· - a)⟩ := by
+  unfold RowBudget.advance
+  by_cases h : a = 0
+  · subst h; cases b.limit <;> simp
+  · simp [h]
+
 /-- **Budget distribution**: applying the budget to one row group with `n1` selected rows and the
 advanced budget to the next with `n2` selected rows emits, in total, what applying the original
 budget to `n1 + n2` rows emits, and leaves the same remaining budget. -/
@@ -603,11 +625,12 @@ theorem rowBudget_distributes (b : RowBudget) (n1 n2 : Nat) :
     b.rowsAfter n1 + (b.advance n1 (b.rowsAfter n1)).rowsAfter n2 = b.rowsAfter (n1 + n2) ∧
     (b.advance n1 (b.rowsAfter n1)).advance n2 ((b.advance n1 (b.rowsAfter n1)).rowsAfter n2)
       = b.advance (n1 + n2) (b.rowsAfter (n1 + n2)) := by
+  simp only [advance_eq]
   obtain ⟨o, l⟩ := b
   cases o <;> cases l <;>
-    simp only [RowBudget.rowsAfter, RowBudget.advance, Option.getD, Option.map, RowBudget.mk.injEq,
-      Option.some.injEq, ne_eq, ite_not, and_true, true_and] <;>
-    (repeat' split) <;> (try constructor) <;> omega
+    simp only [RowBudget.rowsAfter, Option.getD_none, Option.getD_some, Option.map_none, Option.map_some,
+      RowBudget.mk.injEq, Option.some.injEq, and_true, true_and, Nat.sub_zero] <;>
+    omega
 
 /-- the rows each row group of a scan emits, threading the budget (`apply_to_plan` /
 `plan_selected_row_group`) -/
@@ -619,28 +642,15 @@ def budgetedRows (b : RowBudget) : List Nat → List Nat
 global offset/limit applied to all selected rows. -/
 theorem budgetedRows_sum (ns : List Nat) : ∀ b : RowBudget, (budgetedRows b ns).sum = b.rowsAfter ns.sum := by
   induction ns with
-  | nil => intro b; simp [budgetedRows, RowBudget.rowsAfter]; cases b.limit <;> simp
+  | nil =>
+    intro b
+    obtain ⟨o, l⟩ := b
+    cases l <;> simp [budgetedRows, RowBudget.rowsAfter]
   | cons n ns ih =>
     intro b
-    cases ns with
-    | nil => simp [budgetedRows]
-    | cons n2 ns =>
-      have h := ih (b.advance n (b.rowsAfter n))
-      simp only [budgetedRows, List.sum_cons] at h ⊢
-      have d := rowBudget_distributes b n n2
-      have ih2 := ih
-      -- fold the first two row groups into one and use the induction hypothesis on the rest
-      have key : ∀ (b : RowBudget) (ns : List Nat) (n1 n2 : Nat),
-          (budgetedRows b (n1 :: n2 :: ns)).sum = (budgetedRows b ((n1 + n2) :: ns)).sum := by
-        intro b ns n1 n2
-        have d := rowBudget_distributes b n1 n2
-        simp only [budgetedRows, List.sum_cons]
-        rw [← d.2, ← d.1]; omega
-      have := key b ns n n2
-      simp only [budgetedRows, List.sum_cons] at this
-      rw [h]
-      have e := (rowBudget_distributes b n (n2 + ns.sum)).1
-      omega
+    simp only [budgetedRows, List.sum_cons]
+    rw [ih]
+    exact (rowBudget_distributes b n ns.sum).1
 
 /-- non-vacuity: offset 25, limit 20 over row groups of 10, 30 and 40 selected rows -/
 example : budgetedRows ⟨some 25, some 20⟩ [10, 30, 40] = [0, 15, 5] := by decide
